@@ -77,7 +77,10 @@ pub fn judge(specs: &[Spec], case: &Case, l: &mut Local) {
         Ok(val) => {
             l.eval(&stratum, &format!("accepted/{vname}"), true, hash_bytes2(&case.ty, &case.content));
             if let Verdict::Reject(reason) = &verdict {
-                v(l, &case.ty, "over-accept", reason, format!("{} accepts a content outside its documented format ({reason}; candidate class {} / {})", case.ty, case.component, case.class), case);
+                // random edits and random strings usually break several things at once, so the reference's first
+                // reason is arbitrary: they are keyed by their class only
+                let random = case.class.starts_with("random");
+                v(l, &case.ty, "over-accept", if random { "-:random" } else { reason.as_str() }, format!("{} accepts a content outside its documented format ({reason}; candidate class {} / {})", case.ty, case.component, case.class), case);
                 return;
             }
             // conservation: the accepted content must come back
